@@ -572,7 +572,8 @@ fn stress(args: &Args, rep: &mut Report) -> i32 {
                     if per_uri.get(&shared_key).copied().unwrap_or(0) == 0 {
                         broken += 1;
                         rep.divergence(pid, format!("stress {name} run {r}: the shared repository was not fetched at all"));
-                    } else if got != expect {
+                    } else if got != expect && per_uri.values().chain(per_mod.values()).all(|n| *n <= 1) {
+                        // (after a double fetch -- reported above -- the double rewrites the local copy under the readers)
                         // a CA whose thread read the repository before the single fetch had finished loses its ROA
                         rep.violation(pid, &format!("{name}/returned-before-fetch-finished"),
                             format!("free-running validation with an empty cache: VRPs {:?} missing although every CA's objects are published in {shared_key}",
